@@ -77,6 +77,10 @@ def jobs(tier):
                      (5, 7)]
             if flavor == 'none':
                 pairs = pairs[:2]
+            if flavor == 'legacy':
+                # a daughter's copied deriver replaced by a generated process
+                # (the history behind /repo 9177a5d)
+                pairs = pairs + [(4, 2), (4, 7), (4, 9)]
             for a, b in pairs:
                 out.append(dict(name='%s-%s-%s' % (flavor, KINDS[a], KINDS[b]),
                                 flavor=flavor, ops=[a, b], budget_s=100))
